@@ -141,7 +141,25 @@ impl Prop for C19 {
             return Verdict::Skip("no-section");
         }
         crate::gen::config::keep_headers_intact(&mut cfg, &case.render());
-        let input = case.bytes();
+        // a binary file whose mode changes as well: `old mode`/`new mode` lines in front of the
+        // `index` and `Binary files ... differ` lines (no ---/+++ lines, no hunks)
+        let input = {
+            let mut lines = case.render();
+            let secs = case.sections();
+            let mut i = 0;
+            while i < lines.len() {
+                if let crate::gen::diff::Role::DiffLine { sec } = lines[i].role {
+                    if secs.get(sec).map(|s| s.kind == SK::BinaryModified).unwrap_or(false) && t.chance(1, 2) {
+                        lines.insert(i + 1, crate::gen::diff::InLine { text: "old mode 100644".to_string(), role: crate::gen::diff::Role::Mode { sec } });
+                        lines.insert(i + 2, crate::gen::diff::InLine { text: "new mode 100755".to_string(), role: crate::gen::diff::Role::Mode { sec } });
+                        ctx.class("binary-file-with-mode-change");
+                        i += 2;
+                    }
+                }
+                i += 1;
+            }
+            crate::gen::diff::lines_to_bytes(&lines, case.final_newline)
+        };
         let mut cfg_h = cfg.clone();
         cfg_h.flag("hyperlinks");
         let run = |c: &Cfg, ctx: &Ctx| -> Result<Vec<u8>, Failure> {
@@ -284,7 +302,14 @@ impl Prop for C19 {
                                     continue;
                                 }
                                 let want = url_for(&s.new_path, Some(n));
-                                if url != want {
+                                // (a panel too narrow for its gutter cuts the number short: the cell then
+                                // shows the first digits of a line number of this section, which the link carries in full)
+                                let cut_short = cfg.has("side-by-side")
+                                    && s.hunks.iter().any(|h| (h.new_start..h.new_start + h.lines.len() + 1).any(|m| {
+                                        let m = m.to_string();
+                                        m.len() > n.len() && m.starts_with(n) && url == url_for(&s.new_path, Some(&m))
+                                    }));
+                                if url != want && !cut_short {
                                     return fail(format!("a line-number cell of section {} showing {} must link to `{}`", c, n, want));
                                 }
                                 if tpl.contains("{line}") {
